@@ -11,7 +11,7 @@ See DESIGN.md section 2.
 import functools
 import os
 import weakref
-from collections import Counter
+from collections import Counter, deque
 
 from dsim import HarnessError, Violation
 from dsim.net import SimClock, SimNet, SimSocket, SimSocketModule, WouldHangForever
@@ -153,6 +153,18 @@ class _Rec:
             self._h = f
         elif shape == "partial":
             self._h = functools.partial(_Rec.fire, self)
+        elif shape == "builtin":
+            # `received.append` / `pending.popleft`: bound methods of built-in objects.  Like Python-level bound methods they
+            # are built afresh on each access and compare equal for the same object, but they are not types.MethodType, and
+            # nothing can be hooked into them: what they did is read off the container after the hub call (collect()).
+            self._h = None
+            self._seen = 0
+            if kind == "sink":
+                self._box = []
+            else:
+                self._total = 0          # tokens put into the deque so far (topped up after every hub call)
+                self._box = deque()
+                self._top_up()
         else:
             self._h = None
 
@@ -171,7 +183,32 @@ class _Rec:
         self.run.on_source(self.hid, v)
         return v
 
+    def _top_up(self, keep=64):
+        # one hub call pops at most 12 iterations x 4 registrations
+        while len(self._box) < keep:
+            self._total += 1
+            self._box.append({"const": "c%d" % self.hid, "shared": "K"}.get(self.values) or "s%d-%d" % (self.hid, self._total))
+
+    def collect(self):
+        """Built-in handles only: book what the container shows since the last look."""
+        if self.shape != "builtin":
+            return
+        if self.kind == "sink":
+            for v in self._box[self._seen:]:
+                self.run.on_sink(self.hid, v)
+            self._seen = len(self._box)
+        else:
+            popped = self._total - len(self._box)
+            for i in range(self._seen, popped):
+                self.n += 1
+                v = {"const": "c%d" % self.hid, "shared": "K"}.get(self.values) or "s%d-%d" % (self.hid, i + 1)
+                self.run.on_source(self.hid, v)
+            self._seen = popped
+            self._top_up()
+
     def handle(self):
+        if self.shape == "builtin":
+            return self._box.append if self.kind == "sink" else self._box.popleft
         if self.shape == "method":
             return self.fire          # a fresh bound-method object each time, == to the others
         if self.shape == "weakowner":
@@ -613,6 +650,8 @@ class RouterRun:
         self.log.add("ret", repr(ret) if not isinstance(ret, (bool, type(None), str)) else ret,
                      type(exc).__name__ if exc else None, self.clock.now)
         self.steps_done += 1
+        for rec_ in self.sink_recs + self.source_recs:
+            rec_.collect()
         self._oracle(st, hi, ctx, opened, ret, exc, is_reg, pred_ret)
         if self.collect:
             after = self.abstract_state()
@@ -1017,8 +1056,8 @@ def gen_trace(seed):
             e["tx"] = pick_weighted(rc, choices)
     cfg = {"hubs": hubs, "peers": peers,
            "inbox_cap": rc.choice([1, 2, 64, 64, 64]),
-           "sink_shapes": [rc.choice(["func", "method", "partial", "weakowner"]) for _ in range(3)],
-           "source_shapes": [rc.choice(["func", "method", "partial", "weakowner"]) for _ in range(3)],
+           "sink_shapes": [rc.choice(["func", "method", "partial", "weakowner", "builtin"]) for _ in range(3)],
+           "source_shapes": [rc.choice(["func", "method", "partial", "weakowner", "builtin"]) for _ in range(3)],
            "sink_returns": rc.choice([["none"] * 3, ["none"] * 3, ["false", "true", "none"], ["echo", "zero", "text"],
                                       ["true", "false", "echo"]]),
            # what the sources report: fresh tokens, the same reading every time, or the same reading as each other
